@@ -137,7 +137,7 @@ def run(ctx):
                 k = rng.choice(["global", "dict", "dict", "del", "other", "other", "arith", "self"])
                 which = rng.randrange(3)
                 attr = ["S", "tau_exp", "N_sigma"][which]
-                v = float(rng.choice([0.5, 1, 1.5, 2, 3]) if which == 0 else rng.choice([0, 2, 4]) if which == 1 else rng.choice([0, 1, 2]))
+                v = float(rng.choice([0, 0.5, 1, 1.5, 2, 3]) if which == 0 else rng.choice([0, 2, 4]) if which == 1 else rng.choice([0, 1, 2]))      # 0 is a legal setting of each parameter
                 e = rng.choice(ens_pool)
                 if k == "global":
                     setattr(pe.Obs, attr + "_global", v); ops_t.append("(SetGlobal %d%%nat %s)" % (which, qlit(v)))
